@@ -40,6 +40,8 @@ def run(ctx):
         baseline = json.load(fh)["functions"]
     with open(os.path.join(VERIF, "tables", "C15_k1.json")) as fh:
         k1tab = json.load(fh)["sites"]
+    with open(os.path.join(VERIF, "tables", "C15_demonstrated.json")) as fh:
+        demonstrated = json.load(fh)["sites"]
     ctx.rule("C15.K1", "explicit panics in the read-side closure: hand-triaged table (safe / known / unproven)")
     ctx.rule("C15.K2", "unwrap/expect: per-function count <= frozen baseline")
     ctx.rule("C15.K3", "indexing/slicing (bounds asserts + panicking slice APIs): auto-discharge by constants, else <= baseline")
@@ -111,6 +113,17 @@ def run(ctx):
                         ctx.violation("C15.K1", "C15.K1/%s/%s" % (what, fn), e["reason"], loc)
                 continue
             b = base.get(key, 0)
+            dem = demonstrated.get("%s|%s" % (fn, key)) or demonstrated.get("%s|%s" % (moved_from, key))
+            if dem:
+                # a baseline site that was demonstrated to panic on an input: reported (known finding by exact key), no longer
+                # part of the undecided baseline
+                k = min(n, dem["count"])
+                for _ in range(k):
+                    ctx.violation("C15." + kind, "C15.%s/%s/%s" % (kind, what, fn), dem["reason"], loc)
+                n -= k
+                b = max(0, b - dem["count"])
+                if n == 0:
+                    continue
             if n > b:
                 ctx.violation("C15." + kind, "C15.%s/%s/%s" % (kind, what, fn),
                               "%s has %d undischarged %s site(s) of kind %s, the reviewed baseline has %d: a new panic-capable "
